@@ -17,6 +17,22 @@
 // (*configuration).write does — it asks the components for their settings
 // again and writes them out as YAML — and a restart builds the new node from
 // the text the system itself wrote last, never from the harness's model.
+//
+// The blocked-hosts list is also what the system itself reports through GET
+// /control/access/list: where the configured list is empty (the statement
+// does not say what an empty list stands for) the reference model takes the
+// reported list as the list in force, and requests ask for names taken from
+// it at run time, so that "reported as blocked" and "enforced" cannot drift
+// apart unnoticed.
+//
+// An access-list update may also arrive while requests are being handled: op
+// "par" runs one update, one to four received requests of any transport and
+// optionally a read of the lists as concurrent tasks under the seeded
+// cooperative scheduler (mode D: one task at a time, switches at the lock
+// operations of an instrumented copy of the tree).  Each overlapped request
+// must have been judged by the settings before the update or by the settings
+// after it, never by a mixture neither of them allows; the overlapped read
+// must show what a read before or after the update shows.
 package c03
 
 import (
@@ -35,6 +51,7 @@ import (
 	"github.com/AdguardTeam/AdGuardHome/verifsim/dnsnode"
 	"github.com/AdguardTeam/AdGuardHome/verifsim/env"
 	"github.com/AdguardTeam/AdGuardHome/verifsim/kernel"
+	"github.com/AdguardTeam/AdGuardHome/verifsim/sched"
 	"github.com/AdguardTeam/urlfilter"
 	"github.com/AdguardTeam/urlfilter/filterlist"
 	"github.com/miekg/dns"
@@ -51,7 +68,7 @@ type Lists struct {
 
 // Op is one generated operation.
 type Op struct {
-	Kind     string `json:"k"` // query | set | restart | reconfigure | write
+	Kind     string `json:"k"` // query | set | restart | reconfigure | write | par
 	Proto    string `json:"proto,omitempty"`
 	Addr     string `json:"addr,omitempty"`
 	ClientID string `json:"cid,omitempty"` // as the client spells it (any case)
@@ -66,6 +83,20 @@ type Op struct {
 	Raw string `json:"raw,omitempty"`
 	// Write is the settings endpoint of an unrelated write.
 	Write string `json:"write,omitempty"`
+	// FromReported makes a query ask for a name the system itself reports as
+	// blocked: the Pick-th (modulo) of the entries of the blocked-hosts list
+	// returned by the last GET /control/access/list that are plain host names
+	// (Name is asked if there is none).
+	FromReported bool `json:"from_reported,omitempty"`
+	Pick         int  `json:"pick,omitempty"`
+	// par: the update (Lists / Bad / Raw as in a set) runs concurrently with
+	// the requests Reqs and, if WithList, with a GET /control/access/list,
+	// under the cooperative scheduler seeded with Seed, preemption
+	// probability Pct percent.
+	Seed     uint64 `json:"seed,omitempty"`
+	Pct      int    `json:"pct,omitempty"`
+	Reqs     []Op   `json:"reqs,omitempty"`
+	WithList bool   `json:"with_list,omitempty"`
 }
 
 // Scenario is one case.
@@ -208,6 +239,44 @@ func flipCase(t *rapid.T, s string) string {
 	return strings.ToUpper(s[:1]) + s[1:]
 }
 
+// genSet draws an update: lists that are valid by construction or, one time
+// in three, lists the API has a reason to reject.
+func genSet(t *rapid.T, kind string) Op {
+	if rapid.IntRange(0, 2).Draw(t, "bad_set") == 0 {
+		op := genBadSet(t)
+		op.Kind = kind
+		return op
+	}
+	l := genLists(t)
+	return Op{Kind: kind, Lists: &l}
+}
+
+// genQuery draws one request.  moreIDs shifts the transports towards those
+// that can carry a ClientID.
+func genQuery(t *rapid.T, moreIDs bool) Op {
+	ps := protos
+	if moreIDs {
+		ps = append(append([]string{}, protos...), "tls", "https", "quic")
+	}
+	op := Op{Kind: "query",
+		Proto: rapid.SampledFrom(ps).Draw(t, "proto"),
+		Addr:  rapid.SampledFrom(srcAddrs).Draw(t, "addr"),
+		Name:  rapid.SampledFrom(qnames).Draw(t, "qname"),
+		Qtype: rapid.SampledFrom(qtypes).Draw(t, "qtype"),
+	}
+	if op.Proto == "tls" || op.Proto == "quic" || op.Proto == "https" {
+		if rapid.IntRange(0, 2).Draw(t, "has_cid") != 0 {
+			op.ClientID = flipCase(t, rapid.SampledFrom(append([]string{"zed"}, cids...)).Draw(t, "cid"))
+			op.ViaPath = op.Proto == "https" && rapid.Bool().Draw(t, "via_path")
+		}
+	}
+	if rapid.IntRange(0, 5).Draw(t, "from_reported") == 0 {
+		op.FromReported = true
+		op.Pick = rapid.IntRange(0, 7).Draw(t, "pick")
+	}
+	return op
+}
+
 // Gen draws a scenario.
 func Gen(t *rapid.T, tier string) any {
 	sc := &Scenario{Initial: genLists(t)}
@@ -216,38 +285,27 @@ func Gen(t *rapid.T, tier string) any {
 		maxOps = 80
 	}
 	for i, n := 0, rapid.IntRange(4, maxOps).Draw(t, "n_ops"); i < n; i++ {
-		switch rapid.IntRange(0, 19).Draw(t, "op_kind") {
+		switch rapid.IntRange(0, 21).Draw(t, "op_kind") {
 		case 0, 1:
-			if rapid.IntRange(0, 2).Draw(t, "bad_set") == 0 {
-				sc.Ops = append(sc.Ops, genBadSet(t))
-				continue
-			}
-			l := genLists(t)
-			sc.Ops = append(sc.Ops, Op{Kind: "set", Lists: &l})
-			continue
+			sc.Ops = append(sc.Ops, genSet(t, "set"))
 		case 2:
 			sc.Ops = append(sc.Ops, Op{Kind: "restart"})
-			continue
 		case 3:
 			sc.Ops = append(sc.Ops, Op{Kind: "reconfigure"})
-			continue
 		case 4:
 			sc.Ops = append(sc.Ops, Op{Kind: "write", Write: rapid.SampledFrom(writeKinds).Draw(t, "write_kind")})
-			continue
-		}
-		op := Op{Kind: "query",
-			Proto: rapid.SampledFrom(protos).Draw(t, "proto"),
-			Addr:  rapid.SampledFrom(srcAddrs).Draw(t, "addr"),
-			Name:  rapid.SampledFrom(qnames).Draw(t, "qname"),
-			Qtype: rapid.SampledFrom(qtypes).Draw(t, "qtype"),
-		}
-		if op.Proto == "tls" || op.Proto == "quic" || op.Proto == "https" {
-			if rapid.IntRange(0, 2).Draw(t, "has_cid") != 0 {
-				op.ClientID = flipCase(t, rapid.SampledFrom(append([]string{"zed"}, cids...)).Draw(t, "cid"))
-				op.ViaPath = op.Proto == "https" && rapid.Bool().Draw(t, "via_path")
+		case 5, 6:
+			op := genSet(t, "par")
+			op.Seed = rapid.Uint64().Draw(t, "par_seed")
+			op.Pct = rapid.SampledFrom([]int{20, 50, 80}).Draw(t, "par_pct")
+			for j, m := 0, rapid.IntRange(1, 4).Draw(t, "par_reqs"); j < m; j++ {
+				op.Reqs = append(op.Reqs, genQuery(t, true))
 			}
+			op.WithList = rapid.IntRange(0, 2).Draw(t, "par_list") == 0
+			sc.Ops = append(sc.Ops, op)
+		default:
+			sc.Ops = append(sc.Ops, genQuery(t, false))
 		}
-		sc.Ops = append(sc.Ops, op)
 	}
 	return sc
 }
@@ -327,22 +385,37 @@ func inSet(addr netip.Addr, ips map[netip.Addr]bool, nets []netip.Prefix) (hit, 
 	return false, false
 }
 
-func (a *access) decide(addr netip.Addr, clientID, host string, qt uint16) decision {
+// clientExcluded is the verdict on the client alone (address and ClientID).
+func (a *access) clientExcluded(addr netip.Addr, clientID string) (excluded, open bool, why string) {
 	if a.allowMode {
 		hit, open := inSet(addr, a.allowedIPs, a.allowedNets)
 		if !hit && !(clientID != "" && a.allowedIDs[clientID]) {
-			return decision{excluded: true, open: open, why: "allow-list mode, neither address nor ClientID allowed"}
+			return true, open, "allow-list mode, neither address nor ClientID allowed"
 		}
-	} else {
-		hit, open := inSet(addr, a.disIPs, a.disNets)
-		if hit || (clientID != "" && a.disIDs[clientID]) {
-			return decision{excluded: true, why: "address or ClientID disallowed"}
-		}
-		if open {
-			return decision{open: true, why: "open shape"}
-		}
+		return false, false, ""
 	}
-	if _, ok := a.hosts.MatchRequest(&urlfilter.DNSRequest{Hostname: host, DNSType: qt}); ok {
+	hit, open := inSet(addr, a.disIPs, a.disNets)
+	if hit || (clientID != "" && a.disIDs[clientID]) {
+		return true, false, "address or ClientID disallowed"
+	}
+	return false, open, ""
+}
+
+// nameBlocked is the verdict on the question alone.
+func (a *access) nameBlocked(host string, qt uint16) bool {
+	_, ok := a.hosts.MatchRequest(&urlfilter.DNSRequest{Hostname: host, DNSType: qt})
+	return ok
+}
+
+func (a *access) decide(addr netip.Addr, clientID, host string, qt uint16) decision {
+	excl, open, why := a.clientExcluded(addr, clientID)
+	if excl {
+		return decision{excluded: true, open: open, why: why}
+	}
+	if open {
+		return decision{open: true, why: "open shape"}
+	}
+	if a.nameBlocked(host, qt) {
 		return decision{excluded: true, why: "name on the blocked-hosts list"}
 	}
 	return decision{why: "admitted"}
@@ -370,6 +443,62 @@ type runner struct {
 	sinceRestart, sinceRejected bool
 	// first decision seen for an "open" input, to assert consistency
 	openSeen map[string]bool
+	// rep is what the last GET /control/access/list answered.
+	rep reported
+	// modelHosts is the blocked-hosts list the reference model is built from:
+	// the accepted one or, where that is empty, the one the system reports.
+	modelHosts []string
+	// hold is an access model that must outlive its replacement (the settings
+	// before an update that requests overlap).
+	hold *access
+	// abandon is set after a deadlock: the parked tasks hold the node's locks
+	// for ever, so nothing of it may be touched again.
+	abandon bool
+}
+
+// reported is the answer of GET /control/access/list.
+type reported struct {
+	A []string `json:"allowed_clients"`
+	D []string `json:"disallowed_clients"`
+	H []string `json:"blocked_hosts"`
+}
+
+func (a reported) same(b reported) bool {
+	return sameSet(a.A, b.A) && sameSet(a.D, b.D) && sameSet(a.H, b.H)
+}
+
+// isPlainHostName reports whether s is a host name written out (labels of
+// letters, digits and hyphens joined by dots) and not a pattern.
+func isPlainHostName(s string) bool {
+	if s == "" || len(s) > 253 {
+		return false
+	}
+	for _, label := range strings.Split(s, ".") {
+		if label == "" || len(label) > 63 {
+			return false
+		}
+		for _, ch := range label {
+			if !(ch >= 'a' && ch <= 'z' || ch >= 'A' && ch <= 'Z' || ch >= '0' && ch <= '9' || ch == '-') {
+				return false
+			}
+		}
+	}
+	return true
+}
+
+// setModel replaces the reference model (the previous one is closed unless it
+// is held).
+func (r *runner) setModel(l Lists) error {
+	a, err := newAccess(l)
+	if err != nil {
+		return err
+	}
+	if r.ac != nil && r.ac != r.hold {
+		r.ac.close()
+	}
+	r.ac, r.modelHosts = a, l.Hosts
+	r.openSeen = map[string]bool{}
+	return nil
 }
 
 // onConfigModified does what home's onConfigModified -> (*configuration).write
@@ -414,6 +543,9 @@ func (r *runner) start() error {
 }
 
 func (r *runner) stop() {
+	if r.abandon {
+		return
+	}
 	if r.n != nil {
 		r.n.Close()
 		r.n = nil
@@ -428,26 +560,34 @@ func sameSet(a, b []string) bool {
 	return fmt.Sprint(a) == fmt.Sprint(b) && len(a) == len(b)
 }
 
-// checkReported compares what GET /control/access/list reports with the
-// settings in force.  An empty blocked-hosts list may stand for built-in
-// defaults, which the statement does not fix: the reported hosts are compared
-// only when the accepted list is non-empty.
-func (r *runner) checkReported(class, what string) error {
+// getReported reads GET /control/access/list.
+func (r *runner) getReported() (got reported, err error) {
 	code, body, err := r.n.Mux.Do("GET", "/control/access/list", nil)
 	if err != nil {
 		if hp, ok := err.(*env.HandlerPanic); ok {
-			return kernel.Violationf("api-panic", "%v", hp)
+			return got, kernel.Violationf("api-panic", "%v", hp)
 		}
-		return err
-	}
-	var got struct {
-		A []string `json:"allowed_clients"`
-		D []string `json:"disallowed_clients"`
-		H []string `json:"blocked_hosts"`
+		return got, err
 	}
 	if code != http.StatusOK || json.Unmarshal(body, &got) != nil {
-		return fmt.Errorf("harness: access/list -> %d %s", code, body)
+		return got, fmt.Errorf("harness: access/list -> %d %s", code, body)
 	}
+	return got, nil
+}
+
+// checkReported compares what GET /control/access/list reports with the
+// settings in force.  An empty blocked-hosts list may stand for built-in
+// defaults, which the statement does not fix: the reported hosts are compared
+// only when the accepted list is non-empty.  When it is empty, whatever the
+// system reports is the blocked-hosts list as far as anybody can tell, and the
+// reference model is built from it: what is reported as blocked must be
+// enforced.
+func (r *runner) checkReported(class, what string) error {
+	got, err := r.getReported()
+	if err != nil {
+		return err
+	}
+	r.rep = got
 	hostsOK := sameSet(got.H, r.accepted.Hosts)
 	if len(r.accepted.Hosts) == 0 {
 		hostsOK = true
@@ -461,13 +601,52 @@ func (r *runner) checkReported(class, what string) error {
 		return kernel.Violationf(class, "%s the access settings in force are allowed=%v disallowed=%v blocked_hosts=%v, but GET /control/access/list reports allowed=%v disallowed=%v blocked_hosts=%v",
 			what, r.accepted.Allowed, r.accepted.Disallowed, r.accepted.Hosts, got.A, got.D, got.H)
 	}
+	if len(r.accepted.Hosts) == 0 && !sameSet(got.H, r.modelHosts) {
+		l := r.accepted
+		l.Hosts = append([]string{}, got.H...)
+		return r.setModel(l)
+	}
 	return nil
 }
 
-func (r *runner) query(op Op) error {
-	addr := netip.MustParseAddr(op.Addr)
-	q := &dnsnode.Query{Proto: op.Proto, Addr: netip.AddrPortFrom(addr, 40000), Name: op.Name, Qtype: op.Qtype}
-	cid := strings.ToLower(op.ClientID)
+// request is one generated request made concrete.
+type request struct {
+	op   Op
+	q    *dnsnode.Query
+	addr netip.Addr
+	cid  string // the ClientID as the server must understand it
+	name string // the name asked
+	host string // lower-case, no trailing dot
+	desc string
+}
+
+// observed is what one request did.
+type observed struct {
+	rep           *dnsnode.Reply
+	up, log, stat int
+}
+
+// build makes the request of op concrete.  A request "from reported" asks for
+// one of the names the system itself listed as blocked in its last answer to
+// GET /control/access/list.
+func (r *runner) build(op Op) *request {
+	rq := &request{op: op, addr: netip.MustParseAddr(op.Addr), cid: strings.ToLower(op.ClientID), name: op.Name}
+	if op.FromReported {
+		var plain []string
+		for _, h := range r.rep.H {
+			if isPlainHostName(h) {
+				plain = append(plain, h)
+			}
+		}
+		if len(plain) > 0 {
+			rq.name = plain[op.Pick%len(plain)]
+			r.c.Probe("reported_name_request")
+			if len(r.accepted.Hosts) == 0 {
+				r.c.Probe("reported_default_name_request")
+			}
+		}
+	}
+	q := &dnsnode.Query{Proto: op.Proto, Addr: netip.AddrPortFrom(rq.addr, 40000), Name: rq.name, Qtype: op.Qtype}
 	switch op.Proto {
 	case "tls", "quic":
 		q.SNI = serverName
@@ -484,38 +663,57 @@ func (r *runner) query(op Op) error {
 			}
 		}
 	}
-	host := strings.ToLower(strings.TrimSuffix(op.Name, "."))
-	d := r.ac.decide(addr, cid, host, op.Qtype)
+	rq.q = q
+	rq.host = strings.ToLower(strings.TrimSuffix(rq.name, "."))
+	rq.desc = fmt.Sprintf("%s from %s cid=%q for %s %s", op.Proto, op.Addr, rq.cid, rq.name, dns.Type(op.Qtype))
+	return rq
+}
+
+func rcodeOf(rep *dnsnode.Reply) string {
+	if rep.Msg != nil {
+		return dns.RcodeToString[rep.Msg.Rcode]
+	}
+	return "none"
+}
+
+// refused reports whether the client saw the answer an excluded request gets.
+func refused(proto string, rep *dnsnode.Reply) bool {
+	switch proto {
+	case "udp", "dnscrypt":
+		return rep.Dropped
+	default:
+		return rep.Msg != nil && rep.Msg.Rcode == dns.RcodeRefused
+	}
+}
+
+func (r *runner) query(op Op) error {
+	rq := r.build(op)
+	d := r.ac.decide(rq.addr, rq.cid, rq.host, op.Qtype)
 	logN, statN, upN := r.n.QLog.Len(), r.n.Stats.Len(), r.n.Up.Len()
-	rep := r.n.Do(q)
+	rep := r.n.Do(rq.q)
 	kernel.Wait()
 	if rep.WireErr != nil {
 		return kernel.Violationf("malformed-reply", "%v", rep.WireErr)
 	}
-	rc := "none"
-	if rep.Msg != nil {
-		rc = dns.RcodeToString[rep.Msg.Rcode]
-	}
-	r.c.Eventf("query %s %s cid=%q %s %s -> %s writes=%d up=%d log=%d stat=%d | model excluded=%v open=%v", op.Proto, op.Addr, cid, op.Name, dns.Type(op.Qtype), rc, rep.Writes, r.n.Up.Len()-upN, r.n.QLog.Len()-logN, r.n.Stats.Len()-statN, d.excluded, d.open)
-	desc := fmt.Sprintf("%s from %s cid=%q for %s %s", op.Proto, op.Addr, cid, op.Name, dns.Type(op.Qtype))
-
-	refusedObserved := false
-	switch op.Proto {
-	case "udp", "dnscrypt":
-		refusedObserved = rep.Dropped
-	default:
-		refusedObserved = rep.Msg != nil && rep.Msg.Rcode == dns.RcodeRefused
-	}
+	o := observed{rep: rep, up: r.n.Up.Len() - upN, log: r.n.QLog.Len() - logN, stat: r.n.Stats.Len() - statN}
+	r.c.Eventf("query %s %s cid=%q %s %s -> %s writes=%d up=%d log=%d stat=%d | model excluded=%v open=%v", op.Proto, op.Addr, rq.cid, rq.name, dns.Type(op.Qtype), rcodeOf(rep), rep.Writes, o.up, o.log, o.stat, d.excluded, d.open)
 	if d.open {
 		// Only: a decision, and the same decision for the same input.
+		refusedObserved := refused(op.Proto, rep)
 		r.c.Probe("open_shape")
-		key := fmt.Sprintf("%s|%s|%s|%d", op.Addr, cid, host, op.Qtype)
+		key := fmt.Sprintf("%s|%s|%s|%d", op.Addr, rq.cid, rq.host, op.Qtype)
 		if prev, ok := r.openSeen[key]; ok && prev != refusedObserved {
-			return kernel.Violationf("inconsistent-decision", "%s: served once and refused once under the same lists", desc)
+			return kernel.Violationf("inconsistent-decision", "%s: served once and refused once under the same lists", rq.desc)
 		}
 		r.openSeen[key] = refusedObserved
 		d.excluded = refusedObserved
 	}
+	return r.judge(rq, d, o)
+}
+
+// judge holds what one request did against the verdict d it is under.
+func (r *runner) judge(rq *request, d decision, o observed) error {
+	op, rep, desc, rc := rq.op, o.rep, rq.desc, rcodeOf(o.rep)
 	if d.excluded {
 		r.c.Probe("excluded_request")
 		if r.sinceRestart {
@@ -527,6 +725,9 @@ func (r *runner) query(op Op) error {
 		r.c.Probe("excluded_" + op.Proto)
 		if d.why == "name on the blocked-hosts list" {
 			r.c.Probe("excluded_by_name")
+			if len(r.accepted.Hosts) == 0 {
+				r.c.Probe("excluded_by_reported_default_name")
+			}
 		}
 		switch op.Proto {
 		case "udp", "dnscrypt":
@@ -538,13 +739,13 @@ func (r *runner) query(op Op) error {
 				return kernel.Violationf("excluded-not-refused", "%s is excluded (%s): want exactly one REFUSED reply, got %s (writes=%d http=%d)", desc, d.why, rc, rep.Writes, rep.HTTPStatus)
 			}
 		}
-		if n := r.n.Up.Len() - upN; n != 0 {
-			return kernel.Violationf("excluded-resolved", "%s is excluded (%s) but %d question(s) went upstream", desc, d.why, n)
+		if o.up != 0 {
+			return kernel.Violationf("excluded-resolved", "%s is excluded (%s) but %d question(s) went upstream", desc, d.why, o.up)
 		}
-		if n := r.n.QLog.Len() - logN; n != 0 {
+		if o.log != 0 {
 			return kernel.Violationf("excluded-logged", "%s is excluded (%s) but was written to the query log", desc, d.why)
 		}
-		if n := r.n.Stats.Len() - statN; n != 0 {
+		if o.stat != 0 {
 			return kernel.Violationf("excluded-counted", "%s is excluded (%s) but was counted in statistics", desc, d.why)
 		}
 		return nil
@@ -556,14 +757,14 @@ func (r *runner) query(op Op) error {
 	if r.sinceRejected {
 		r.c.Probe("served_after_rejected_update")
 	}
-	if cid != "" {
+	if rq.cid != "" {
 		r.c.Probe("served_with_clientid")
 	}
 	if rep.Msg == nil || rep.Msg.Rcode != dns.RcodeSuccess {
 		return kernel.Violationf("admitted-not-served", "%s must be served (%s; allow-mode=%v) but got %s (writes=%d http=%d err=%v)", desc, d.why, r.ac.allowMode, rc, rep.Writes, rep.HTTPStatus, rep.Err)
 	}
-	if r.n.Up.Len()-upN < 1 || r.n.QLog.Len()-logN != 1 || r.n.Stats.Len()-statN != 1 {
-		return kernel.Violationf("admitted-not-processed", "%s served but up=%d log=%d stat=%d (want >=1, 1, 1)", desc, r.n.Up.Len()-upN, r.n.QLog.Len()-logN, r.n.Stats.Len()-statN)
+	if o.up < 1 || o.log != 1 || o.stat != 1 {
+		return kernel.Violationf("admitted-not-processed", "%s served but up=%d log=%d stat=%d (want >=1, 1, 1)", desc, o.up, o.log, o.stat)
 	}
 	return nil
 }
@@ -585,12 +786,7 @@ func listsBody(l Lists) []byte {
 // spoiled ones either answer is taken (the statement does not say which
 // documents are acceptable), an undecodable document cannot be accepted.
 func (r *runner) set(op Op) error {
-	var b []byte
-	if op.Lists != nil {
-		b = listsBody(*op.Lists)
-	} else {
-		b = []byte(op.Raw)
-	}
+	b := setBody(op)
 	code, resp, err := r.n.Mux.Do("POST", "/control/access/set", b)
 	if err != nil {
 		if hp, ok := err.(*env.HandlerPanic); ok {
@@ -599,6 +795,19 @@ func (r *runner) set(op Op) error {
 		return err
 	}
 	kernel.Wait()
+	return r.afterSet(op, b, code, resp)
+}
+
+func setBody(op Op) []byte {
+	if op.Lists != nil {
+		return listsBody(*op.Lists)
+	}
+	return []byte(op.Raw)
+}
+
+// afterSet takes the API's answer to the update op (sent as b) into the
+// reference model and compares the reported lists.
+func (r *runner) afterSet(op Op, b []byte, code int, resp []byte) (err error) {
 	if r.diskErr != nil {
 		return r.diskErr
 	}
@@ -608,12 +817,10 @@ func (r *runner) set(op Op) error {
 		return kernel.Violationf("undecodable-update-accepted", "POST /control/access/set with body %q, which is no document of three string lists, was answered 200", b)
 	case code == http.StatusOK:
 		l := *op.Lists
-		r.ac.close()
-		if r.ac, err = newAccess(l); err != nil {
+		if err = r.setModel(l); err != nil {
 			return err
 		}
 		r.accepted = l
-		r.openSeen = map[string]bool{}
 		r.setWrites = r.diskWrites
 		r.sinceRejected = false
 		r.c.Fault("live_access_update")
@@ -628,6 +835,193 @@ func (r *runner) set(op Op) error {
 		return r.checkReported("rejected-update-visible", fmt.Sprintf("after the rejected (%d) update %s", code, b))
 	}
 	return fmt.Errorf("harness: access/set %s -> %d %s", b, code, resp)
+}
+
+// par runs the update of op, its requests and possibly a read of the lists as
+// concurrent tasks, one at a time, interleaved at lock operations by the
+// seeded scheduler.  The requests have been received when the phase starts.
+// The settings in force afterwards are decided by the API's answer as for a
+// plain update.  Each request must have been judged by the settings before
+// the update or by those after it: if both exclude it it must have been
+// excluded, if both admit it it must have been served, and whichever way it
+// went, the effects must be those of an excluded or a served request.  The
+// read must show what a read before or after the update shows.
+func (r *runner) par(op Op) error {
+	old, oldRep := r.ac, r.rep
+	r.hold = old
+	defer func() {
+		r.hold = nil
+		if old != r.ac {
+			old.close()
+		}
+	}()
+	type flight struct {
+		rq  *request
+		p   *dnsnode.Prepared
+		rep *dnsnode.Reply
+	}
+	var fl []*flight
+	for _, qop := range op.Reqs {
+		rq := r.build(qop)
+		p, err := r.n.Prepare(rq.q)
+		if err != nil {
+			return err
+		}
+		fl = append(fl, &flight{rq: rq, p: p})
+	}
+	b := setBody(op)
+	var (
+		code    int
+		resp    []byte
+		setErr  error
+		during  reported
+		listErr error
+	)
+	names := []string{"access/set"}
+	fns := []func(){func() { code, resp, setErr = r.n.Mux.Do("POST", "/control/access/set", b) }}
+	for _, f := range fl {
+		names = append(names, "request")
+		fns = append(fns, func() { f.rep = r.n.Handle(f.p) })
+	}
+	if op.WithList {
+		names = append(names, "access/list")
+		fns = append(fns, func() { during, listErr = r.getReported() })
+	}
+	logN, statN, upN := r.n.QLog.Len(), r.n.Stats.Len(), r.n.Up.Len()
+	lat := r.up.Latency
+	r.up.Latency, r.up.OnExchange = 0, func() { sched.Yield() }
+	res := sched.Run(op.Seed, op.Pct, names, fns)
+	r.up.Latency, r.up.OnExchange = lat, nil
+	r.c.Probes["sched_steps"] += res.Steps
+	r.c.Probes["sched_switches"] += res.Switches
+	if res.Deadlock != "" {
+		r.abandon = true
+		return kernel.Violationf("deadlock: "+res.Deadlock, "an access-list update concurrent with %d request(s), schedule seed %d: every task waits for a lock:\n%s", len(fl), op.Seed, res.Detail)
+	}
+	kernel.Wait()
+	r.c.Fault("update_with_requests_in_flight")
+	for _, err := range []error{setErr, listErr} {
+		if hp, ok := err.(*env.HandlerPanic); ok {
+			return kernel.Violationf("api-panic", "%v", hp)
+		} else if err != nil {
+			return err
+		}
+	}
+	// The settings in force from now on.
+	if err := r.afterSet(op, b, code, resp); err != nil {
+		return err
+	}
+	if op.WithList {
+		r.c.Probe("list_read_during_update")
+		r.c.Eventf("par list -> allowed=%v disallowed=%v hosts=%v", during.A, during.D, during.H)
+		if !during.same(oldRep) && !during.same(r.rep) {
+			return kernel.Violationf("overlap-list-mixed", "GET /control/access/list concurrent with the update %s reports allowed=%v disallowed=%v blocked_hosts=%v, which is neither what it reported before (allowed=%v disallowed=%v blocked_hosts=%v) nor after (allowed=%v disallowed=%v blocked_hosts=%v)",
+				b, during.A, during.D, during.H, oldRep.A, oldRep.D, oldRep.H, r.rep.A, r.rep.D, r.rep.H)
+		}
+	}
+	// What the requests did, by name asked.
+	type group struct{ up, log, stat, served int }
+	groups := map[string]*group{}
+	for _, f := range fl {
+		if f.rep.WireErr != nil {
+			return kernel.Violationf("malformed-reply", "%v", f.rep.WireErr)
+		}
+		g := groups[f.rq.host]
+		if g == nil {
+			g = &group{}
+			groups[f.rq.host] = g
+		}
+		if !refused(f.rq.op.Proto, f.rep) {
+			g.served++
+		}
+	}
+	norm := func(s string) string { return strings.ToLower(strings.TrimSuffix(s, ".")) }
+	for _, e := range r.n.Up.Since(upN) {
+		if g := groups[norm(e.Name)]; g != nil {
+			g.up++
+		} else {
+			return kernel.Violationf("overlap-stray-effect", "a question for %s went upstream that no request of the phase asked", e.Name)
+		}
+	}
+	for _, e := range r.n.QLog.Entries[logN:] {
+		if g := groups[norm(e.Name)]; g != nil {
+			g.log++
+		} else {
+			return kernel.Violationf("overlap-stray-effect", "the query log got a record for %s that no request of the phase asked", e.Name)
+		}
+	}
+	for _, e := range r.n.Stats.Updates[statN:] {
+		if g := groups[norm(e.Domain)]; g != nil {
+			g.stat++
+		} else {
+			return kernel.Violationf("overlap-stray-effect", "statistics counted %s that no request of the phase asked", e.Domain)
+		}
+	}
+	for i, f := range fl {
+		rq, g := f.rq, groups[f.rq.host]
+		dOld := old.decide(rq.addr, rq.cid, rq.host, rq.op.Qtype)
+		dNew := r.ac.decide(rq.addr, rq.cid, rq.host, rq.op.Qtype)
+		wasRefused := refused(rq.op.Proto, f.rep)
+		r.c.Eventf("par[%d] %s %s cid=%q %s %s -> %s writes=%d | model old excluded=%v open=%v, new excluded=%v open=%v", i, rq.op.Proto, rq.op.Addr, rq.cid, rq.name, dns.Type(rq.op.Qtype), rcodeOf(f.rep), f.rep.Writes, dOld.excluded, dOld.open, dNew.excluded, dNew.open)
+		// The effects of the requests that asked this name: those of the served
+		// ones and nothing else.
+		o := observed{rep: f.rep}
+		switch {
+		case g.served == 0:
+			// Nobody was served: anything that happened is charged to each.
+			o.up, o.log, o.stat = g.up, g.log, g.stat
+		case g.log != g.served || g.stat != g.served || g.up < g.served:
+			return kernel.Violationf("overlap-effects-mismatch", "of the concurrent requests for %s, %d were served, but %d question(s) went upstream, %d record(s) were written to the query log and %d counted in statistics", rq.host, g.served, g.up, g.log, g.stat)
+		case !wasRefused:
+			o.up, o.log, o.stat = 1, 1, 1
+		}
+		if dOld.excluded != dNew.excluded || dOld.open || dNew.open {
+			r.c.Probe("overlap_verdict_changes")
+		}
+		var d decision
+		switch {
+		case dOld.open || dNew.open:
+			// One of the two settings leaves it open: any decision.
+			r.c.Probe("open_shape")
+			d = decision{excluded: wasRefused, why: "open shape"}
+			if wasRefused && dOld.excluded && !dOld.open {
+				d.why = dOld.why
+			} else if wasRefused && dNew.excluded && !dNew.open {
+				d.why = dNew.why
+			}
+		case dOld.excluded == wasRefused:
+			d = dOld
+			if dNew.excluded != wasRefused {
+				r.c.Probe("overlap_judged_by_old")
+			}
+		case dNew.excluded == wasRefused:
+			d = dNew
+			r.c.Probe("overlap_judged_by_new")
+		case wasRefused:
+			return kernel.Violationf("overlap-admitted-by-both-refused", "%s, concurrent with the update %s, is admitted by the settings before it and by the settings after it, but got %s (writes=%d http=%d)", rq.desc, b, rcodeOf(f.rep), f.rep.Writes, f.rep.HTTPStatus)
+		default:
+			// Served although both settings exclude it.  Tell the shapes apart.
+			cOld, _, _ := old.clientExcluded(rq.addr, rq.cid)
+			cNew, _, _ := r.ac.clientExcluded(rq.addr, rq.cid)
+			nOld, nNew := old.nameBlocked(rq.host, rq.op.Qtype), r.ac.nameBlocked(rq.host, rq.op.Qtype)
+			class := "overlap-excluded-by-both-served"
+			switch {
+			case cOld && cNew:
+				class = "overlap-client-excluded-by-both-served"
+			case !cOld && nOld && cNew && !nNew:
+				class = "overlap-client-by-old-name-by-new-served"
+			}
+			v := kernel.Violationf(class, "%s, concurrent with the update %s, is excluded by the settings before it (%s) and by the settings after it (%s), but was answered %s: judged by a mixture of the two", rq.desc, b, dOld.why, dNew.why, rcodeOf(f.rep))
+			if !r.c.Tolerate(v) {
+				return v
+			}
+			continue
+		}
+		if err := r.judge(rq, d, o); err != nil {
+			return err
+		}
+	}
+	return nil
 }
 
 // restart ends the process and starts a new one from the configuration the
@@ -707,6 +1101,7 @@ func (r *runner) write(kind string) error {
 func Run(t *testing.T, scAny any, c *kernel.Ctx) error {
 	sc := scAny.(*Scenario)
 	dnsnode.InitProcess()
+	sched.Init()
 	dir, err := kernel.TempDir("c03")
 	if err != nil {
 		return err
@@ -722,15 +1117,15 @@ func Run(t *testing.T, scAny any, c *kernel.Ctx) error {
 			return fmt.Errorf("harness: encoding the initial configuration: %w", err)
 		}
 		if len(sc.Initial.Hosts) == 0 {
-			// An empty list in the configuration means the built-in defaults;
-			// they cover names this workload never asks for.
+			// An empty list in the configuration may stand for built-in defaults:
+			// whatever the system then reports is taken as the list in force.
 			c.Probe("default_blocked_hosts")
 		}
 		if err = r.start(); err != nil {
 			return err
 		}
 		defer func() { r.stop() }()
-		if r.ac, err = newAccess(sc.Initial); err != nil {
+		if err = r.setModel(sc.Initial); err != nil {
 			return err
 		}
 		defer func() { r.ac.close() }()
@@ -753,6 +1148,11 @@ func Run(t *testing.T, scAny any, c *kernel.Ctx) error {
 				err = r.write(op.Write)
 			case "query":
 				err = r.query(op)
+			case "par":
+				if op.Lists == nil && op.Bad == "" {
+					return fmt.Errorf("harness: par without lists")
+				}
+				err = r.par(op)
 			default:
 				err = fmt.Errorf("harness: unknown op %q", op.Kind)
 			}
@@ -772,7 +1172,7 @@ func Run(t *testing.T, scAny any, c *kernel.Ctx) error {
 var Prop = &kernel.Property{
 	ID:    "C03",
 	Level: "exploration",
-	Rule: "seeded histories (rapid): allowed / disallowed lists mixing IPv4/IPv6 addresses, overlapping CIDRs (/0 .. /128) and ClientIDs, blocked-host patterns; set at start and replaced live through POST /control/access/set; updates the API may reject (duplicates, intersecting lists, entries that are no address / CIDR / ClientID, undecodable documents: the answer decides which lists are in force), unrelated settings writes, in-place reconfigurations and restarts from the configuration text the system itself wrote at its last configuration-modified callback, all mixed with the requests; after each of them GET /control/access/list is compared with the lists in force; requests over udp/tcp/tls/https/quic/dnscrypt from 11 source addresses (incl. zoned IPv6 and 4-in-6) with ClientIDs given by SNI label or DoH path in any letter case; " +
+	Rule: "seeded histories (rapid): allowed / disallowed lists mixing IPv4/IPv6 addresses, overlapping CIDRs (/0 .. /128) and ClientIDs, blocked-host patterns; set at start and replaced live through POST /control/access/set; updates the API may reject (duplicates, intersecting lists, entries that are no address / CIDR / ClientID, undecodable documents: the answer decides which lists are in force), unrelated settings writes, in-place reconfigurations and restarts from the configuration text the system itself wrote at its last configuration-modified callback, all mixed with the requests; after each of them GET /control/access/list is compared with the lists in force; requests over udp/tcp/tls/https/quic/dnscrypt from 11 source addresses (incl. zoned IPv6 and 4-in-6) with ClientIDs given by SNI label or DoH path in any letter case, for names of a small alphabet or taken at run time from the blocked-hosts list the system reports (which is the list in force where the configured one is empty); op 'par': one update (valid or spoiled), 1-4 received requests and optionally a read of the lists run as concurrent tasks under the seeded cooperative scheduler (switches at lock operations of the instrumented tree): every overlapped request judged by the settings before or after the update, never by a mixture, the overlapped read equal to a read before or after; " +
 		"non-trivial = at least one excluded and one served request were executed in the case; distinct = distinct scenario digests",
 	Gen: Gen,
 	New: func() any { return &Scenario{} },
@@ -781,11 +1181,12 @@ var Prop = &kernel.Property{
 		return c.Probes["excluded_request"] > 0 && c.Probes["served_request"] > 0
 	},
 	Real:        []string{"internal/dnsforward (HandleBefore, accessManager, ClientID extraction, access/set and access/list handlers, WriteDiskConfig, Prepare / reconfiguration, pipeline, query-log/statistics glue)", "dnsproxy request path (handleBefore, respond*)", "internal/filtering", "internal/client.Storage"},
-	Stub:        []string{"upstream resolver (exchange log)", "client sockets of all six transports (fake conns / writers; UDP judged by the response message)", "query log and statistics (recorders)", "listeners / TLS handshakes (server name placed in the fake connection state)", "configuration file (YAML of the WriteDiskConfig snapshot taken inside every configuration-modified callback, as home's config.write takes it; a restart loads that text)", "Server.Reconfigure (VerifReconfigureNoListen: the same steps without opening listeners)"},
+	Stub:        []string{"upstream resolver (exchange log)", "client sockets of all six transports (fake conns / writers; UDP judged by the response message)", "query log and statistics (recorders)", "listeners / TLS handshakes (server name placed in the fake connection state)", "configuration file (YAML of the WriteDiskConfig snapshot taken inside every configuration-modified callback, as home's config.write takes it; a restart loads that text)", "Server.Reconfigure (VerifReconfigureNoListen: the same steps without opening listeners)", "goroutine scheduling during op par (cooperative scheduler at the lock operations of an instrumented copy of the tree; the clock stands still, the upstream answers at once)"},
 	Assumptions: []string{"blocked-host patterns are matched by urlfilter (trusted) against the lower-cased name", "4-in-6 sources against plain IPv4 entries and zoned IPv6 sources against un-zoned exact entries are not fixed by the statement: only 'a decision, and the same one for the same input' is asserted", "ClientIDs in the lists are lower-case (the extractor lower-cases the client's spelling)"},
-	FaultKinds:  []string{"live_access_update", "rejected_access_update", "restart_from_written_config", "reconfigure", "unrelated_config_write"},
+	FaultKinds:  []string{"live_access_update", "rejected_access_update", "restart_from_written_config", "reconfigure", "unrelated_config_write", "update_with_requests_in_flight"},
 	ProbeNames:  []string{"excluded_request", "served_request", "served_with_clientid", "excluded_by_name", "open_shape", "excluded_udp", "excluded_tcp", "excluded_tls", "excluded_https", "excluded_quic", "excluded_dnscrypt", "default_blocked_hosts",
 		"default_blocked_hosts_reported", "invalid_dup_rejected", "invalid_intersect_rejected", "invalid_unparsable_rejected", "invalid_undecodable_rejected",
 		"restart_right_after_update", "restart_after_rejected_update", "reconfigure_after_rejected_update", "write_after_rejected_update",
-		"served_after_restart", "excluded_after_restart", "served_after_rejected_update", "excluded_after_rejected_update"},
+		"served_after_restart", "excluded_after_restart", "served_after_rejected_update", "excluded_after_rejected_update",
+		"reported_name_request", "reported_default_name_request", "excluded_by_reported_default_name", "list_read_during_update", "overlap_verdict_changes", "overlap_judged_by_old", "overlap_judged_by_new", "sched_steps", "sched_switches"},
 }
